@@ -65,6 +65,7 @@ func (s *selfSeed) add(segment IndexSegment) {
 		delete(s.cache, s.written)
 		s.written = next
 	}
+	verifAsm("ss.add", -1, uint64(segment.first), uint64(segment.last), uint64(s.written), "")
 }
 
 // getChunk returns a segment with the requested chunk ID. If selfSeed doesn't
@@ -73,6 +74,7 @@ func (s *selfSeed) getChunk(id ChunkID) SeedSegment {
 	s.mu.RLock()
 	pos, ok := s.pos[id]
 	s.mu.RUnlock()
+	verifAsmGet(ok, pos)
 	if !ok {
 		return nil
 	}
